@@ -44,6 +44,10 @@ func runC16(o *opts) (*summary, error) {
 	}
 	for a := 0; a <= 1440; a += step {
 		ha, _ := hhmmOf(a)
+		if a < 1440 && a%2 == 1 {
+			// the same value through the other constructor
+			ha = types.HHmmFromTime(time.Date(2000+rng.Intn(50), time.Month(1+rng.Intn(12)), 1+rng.Intn(28), a/60, a%60, rng.Intn(60), rng.Intn(1000), locs[rng.Intn(len(locs))]))
+		}
 		codes := make([]int, 1441)
 		for b := 0; b <= 1440; b++ {
 			hb, _ := hhmmOf(b)
